@@ -91,6 +91,6 @@ import PyYetiVerif.Props.C13FileOK
 #print axioms PyYetiVerif.C13.tabled1_default_eq_before_fix
 #print axioms PyYetiVerif.C13.tabled1_default_differs_iff
 #print axioms PyYetiVerif.C13.file_ok_of_blocks
-#print axioms PyYetiVerif.C13.written_file_ok_partial
-#print axioms PyYetiVerif.C13.typed_readers_independent_written_partial
-#print axioms PyYetiVerif.C13.readers_independent_written_partial
+#print axioms PyYetiVerif.C13.written_file_ok
+#print axioms PyYetiVerif.C13.typed_readers_independent_written
+#print axioms PyYetiVerif.C13.readers_independent_written
